@@ -1,6 +1,7 @@
 // C19: the BUILD parser is total and fails only with positioned errors.
-// Implementation side of the correspondence (real asp lexer + Parser.ParseData through the verif hook
-// src/parse/asp/verif_c19.go) and the model-independent property oracle.
+// Implementation side of the correspondence (real asp lexer + the public entry points Parser.ParseData,
+// ParseFileOnly and ParseReader through the verif hook src/parse/asp/verif_c19.go, each under a recover so
+// that a panic leaving one is reported with its input) and the model-independent property oracle.
 package main
 
 import (
@@ -92,7 +93,7 @@ func child() {
 			}
 			data := in.Bytes()
 			t := time.Now()
-			out := asp.VerifC19Parse(data)
+			out := asp.VerifC19Guard(func() asp.VerifC19Outcome { return asp.VerifC19Parse(data) })
 			js, _ := json.Marshal(childResult{Out: out, Ms: time.Since(t).Milliseconds()})
 			w.Write(js)
 			w.WriteByte('\n')
@@ -507,6 +508,19 @@ var adversarial = []string{
 	"@", "x = $", "x = `a`", "x = a ? b\n", "x = ~a\n", "x = a; b\n", "x = a \\\n b\n", "é = 1\n", "x = é\n", "变量 = 1\n", "x\xc3 = 1\n", "\xff", "\x80x = 1\n", "x\xe2\x80\x8b = 1\n", "x = \xf0\x9f\x98\x80\n", "a\xcc\x81 = 1\n", "x = '\xff\xfe'\n", "x٣ = 1\n", "\xed\xa0\x80 = 1\n", "\xc0\x80 = 1\n", "\xf4\x90\x80\x80\n", "x\xe5\x8f",
 }
 
+// The first-token family: newLexer lexes the first token eagerly, BEFORE parseFileInput's statement loop, so a
+// lexical error there takes a different path through parseFileInput / parseAndHandleErrors than one anywhere
+// later. Every prefix leaves the bad bytes in the first token (blank lines, comments and indentation are skipped
+// by the same nextToken call).
+var firstTokenPrefixes = []string{"", "\n", "\n\n\n", "# c\n", "\r\n", "  ", "\n  ", " \n", "\r", "#\n\n", "\x00"}
+var firstTokenBad = []string{
+	"\t", "$", "?", "`", "~", "@", ";", "\\", "!", "!x", "^", "\x01", "\x7f",
+	"'unterminated", "\"unterminated", "\"\"\"never closed\n\n", "'''x\n", "f'", "r\"", "f\"{", "'a\\", "\"\n\"",
+	"\xff\xfe", "\x80", "\xc3", "\xe5\x8f", "\xed\xa0\x80", "\xf0\x9f\x98\x80", "\xc2\xa0", "\xe2\x80\x8b", "\xc0\x80", "\xf4\x90\x80\x80",
+	"\x00", "0o8", "1e", "-", ")",
+}
+var firstTokenSuffixes = []string{"", "x = 1\n", "\n", " = 1\n", "foo(name = 'a')\n"}
+
 func repoFiles(repo string) [][]byte {
 	var paths []string
 	filepath.Walk(repo, func(p string, info os.FileInfo, err error) error {
@@ -630,6 +644,8 @@ func coqCase(data []byte, toks []asp.VerifC19Token, lo, po asp.VerifC19Outcome) 
 		pobs = lib.App("OParseOk", lib.N(uint64(po.N)))
 	case "positioned":
 		pobs = lib.App("OParseErr", lib.N(uint64(po.Offset)))
+	case "crash":
+		pobs = "OParseCrash"
 	default:
 		pobs = "OParseOther"
 	}
@@ -728,7 +744,8 @@ func main() {
 			"strings in every quoting and prefix form, f-strings, adjacent literals, comprehensions, lambdas, slices, operators incl. 'not in'/'is not'), raw and after 1-3 byte/span/keyword/indentation mutations; " +
 			"(b) whole files and line windows of the repository's own BUILD / build_defs files, raw and mutated; (c) random bytes over a lexer-relevant alphabet and over all 256 values, incl. NULs; " +
 			"(d) a fixed adversarial list (NUL placement, unterminated and triple-quoted strings, f-string braces, adjacent string/f-string literals, integer limits, indentation, every production cut short, UTF-8 edge cases) and the pre-fix corpus; " +
-			"(e) nesting/repetition 10^3-10^4 deep in-process and 10^6-10^7 deep in a child process. Each input is lexed (real lexer alone) and parsed (Parser.ParseData); " +
+			"(d') the first-token family: 11 prefixes that leave the lexer in its first nextToken call (nothing, blank lines, comments, CR, indentation, NUL) x 37 first tokens that are lexical errors or boundary cases (tab, $ ? ` ~ @ ; \\ ! ^, control bytes, unterminated strings in every quoting, invalid / non-letter / overlong / surrogate UTF-8, NUL, bad ints) x 5 suffixes, and one of them put in front of every generated program; " +
+			"(e) nesting/repetition 10^3-10^4 deep in-process and 10^6-10^7 deep in a child process. Each input is lexed (real lexer alone) and parsed through the PUBLIC entry points, each under a recover: Parser.ParseData, Parser.ParseFileOnly (a file on disk) and, when it does not parse, Parser.ParseReader - a panic that leaves one is the defect class panic-escapes-public-entry-point, a different result kind / statement count / error position is entry-points-disagree; " +
 			"model cases compare the whole token stream (type, value, position) or the lexer error position, and the parse result kind, statement count or error position; " +
 			"the oracle also tests the lexer postcondition of C19_lex_tokens (quotes of String tokens, non-empty Int, empty EOF value, non-decreasing positions, EOF last) on every real token stream. " +
 			"distinct = distinct byte strings; non-trivial = at least 3 tokens or a parse error")
@@ -743,11 +760,25 @@ func main() {
 			verif = "/verif"
 		}
 
+		// the file Parser.ParseFileOnly reads: on tmpfs when there is one (thousands of small writes)
+		entryBase := ""
+		if st, err := os.Stat("/dev/shm"); err == nil && st.IsDir() {
+			entryBase = "/dev/shm"
+		}
+		entryDir, err := os.MkdirTemp(entryBase, "verif-c19-entry-")
+		if err != nil {
+			entryDir, err = os.MkdirTemp("", "verif-c19-entry-")
+		}
+		if err != nil {
+			panic(err)
+		}
+		defer os.RemoveAll(entryDir)
+
 		// one evaluation: implementation run + oracle (+ model case when withModel)
 		eval := func(in Input, withModel bool) {
 			data := in.Bytes()
 			t0 := time.Now()
-			po := asp.VerifC19Parse(data)
+			po := asp.VerifC19Guard(func() asp.VerifC19Outcome { return asp.VerifC19Parse(data) })
 			el := time.Since(t0)
 			toks, lo := asp.VerifC19Lex(data)
 			sum := sha1.Sum(data)
@@ -770,6 +801,8 @@ func main() {
 				if strings.Contains(po.Msg, "runtime error") {
 					c.Fail(errClass(po.Msg), "ParseData reported a Go runtime error: "+po.Msg, in)
 				}
+			case "crash":
+				c.Fail("panic-escapes-public-entry-point", "a panic left Parser.ParseData (its callers have no recover: the process crashes): "+po.Msg, in)
 			default:
 				c.Fail(errClass(po.Msg), "ParseData returned an error without a source position: "+po.Msg, in)
 			}
@@ -783,6 +816,34 @@ func main() {
 			}
 			if po.Kind == "positioned" && (po.Offset < 0 || po.Offset > len(data)+2) {
 				c.Fail("error-position-outside-file", fmt.Sprintf("error position %d outside the %d-byte file", po.Offset, len(data)), in)
+			}
+			// the other public entry points: the same file through Parser.ParseFileOnly (a real file on disk) and,
+			// when it does not parse, through Parser.ParseReader; none may panic, all must agree with ParseData
+			if len(data) <= 20000 {
+				same := func(a asp.VerifC19Outcome) bool {
+					return a.Kind == po.Kind && a.N == po.N && (a.Kind != "positioned" || a.Offset == po.Offset)
+				}
+				entryFile := filepath.Join(entryDir, "BUILD")
+				if err := os.WriteFile(entryFile, data, 0o644); err != nil {
+					panic(err)
+				}
+				pf := asp.VerifC19Guard(func() asp.VerifC19Outcome { return asp.VerifC19ParseFileOnly(entryFile) })
+				c.Hist("entry-ParseFileOnly", pf.Kind)
+				if pf.Kind == "crash" {
+					c.Fail("panic-escapes-public-entry-point", "a panic left Parser.ParseFileOnly: "+pf.Msg, in)
+				} else if po.Kind != "crash" && !same(pf) {
+					c.Fail("entry-points-disagree", fmt.Sprintf("ParseData: %s/%d/%d, ParseFileOnly: %s/%d/%d %s", po.Kind, po.N, po.Offset, pf.Kind, pf.N, pf.Offset, pf.Msg), in)
+				}
+				if po.Kind != "ok" && po.Kind != "crash" {
+					pr := asp.VerifC19Guard(func() asp.VerifC19Outcome { return asp.VerifC19ParseReaderFailing(data) })
+					c.Hist("entry-ParseReader", pr.Kind)
+					pr.N = po.N // ParseReader does not return the statements
+					if pr.Kind == "crash" {
+						c.Fail("panic-escapes-public-entry-point", "a panic left Parser.ParseReader: "+pr.Msg, in)
+					} else if !same(pr) {
+						c.Fail("entry-points-disagree", fmt.Sprintf("ParseData: %s/%d, ParseReader: %s/%d %s", po.Kind, po.Offset, pr.Kind, pr.Offset, pr.Msg), in)
+					}
+				}
 			}
 			if el > 120*time.Second && len(data) < 100000 {
 				c.Fail("parse-too-slow", fmt.Sprintf("parsing %d bytes took %v", len(data), el), in)
@@ -820,6 +881,19 @@ func main() {
 		}
 		c.Note("adversarial list: %d inputs; corpus files: %d", len(adversarial), len(corpus))
 
+		// (d') the first-token family, every member through all public entry points; a model case for the short
+		// prefixes / suffixes, oracle only for the rest
+		nFirst := 0
+		for i, pre := range firstTokenPrefixes {
+			for _, bad := range firstTokenBad {
+				for j, suf := range firstTokenSuffixes {
+					eval(mk("first-token", []byte(pre+bad+suf)), i < 4 && j < 2)
+					nFirst++
+				}
+			}
+		}
+		c.Note("first-token family: %d inputs", nFirst)
+
 		// (a) grammar programs, raw and mutated; (b) repository BUILD files; (c) random bytes - interleaved so that
 		// the model cases of every kind are spread evenly over the case files
 		files := repoFiles(repo)
@@ -852,6 +926,9 @@ func main() {
 					eval(mk("repo-window-mutated", mutate(r, w)), false)
 				}
 			}
+			// a lexical error put in front of a valid program / in front of random bytes
+			eval(mk("first-token-mutated", append([]byte(lib.Pick(r, firstTokenPrefixes)+lib.Pick(r, firstTokenBad)), p...)), false)
+			eval(mk("first-token-mutated", append([]byte(lib.Pick(r, firstTokenPrefixes)+lib.Pick(r, firstTokenBad)), randomBytes(r)...)), i%8 == 0)
 			eval(mk("random-bytes", randomBytes(r)), true)
 			for j := 0; j < c.Scale(10, 30); j++ {
 				eval(mk("random-bytes", randomBytes(r)), false)
